@@ -318,6 +318,10 @@ def searchLoop (offs : List Nat) (bw last : Nat) : Nat → Nat → Nat → Nat
       then offs.length - 1 else last + num
     else if offs.getD (last + new) 0 - offs.getD last 0 + (new + 1) * bw ≤ AIM_MINICHUNK_SIZE
       then searchLoop offs bw last fuel new (2 * new)
+    -- the doubled chunk overshoots the aim: keep it only if it still fits a mini-block, else the last count that fit
+    -- (never a single value: a non-final chunk holds 2^n, n ≥ 1 values) — /repo fix of the u16 size overflow
+    else if offs.getD (last + new) 0 - offs.getD last 0 + (new + 1) * bw > MAX_MINIBLOCK_BYTES - 8 ∧ 2 ≤ num
+      then last + num
       else last + new
 
 /-- search_next_offset_idx(offsets, last_offset_idx) -/
@@ -338,24 +342,24 @@ def binCuts (offs : List Nat) (bw : Nat) : Nat → Nat → List (Nat × Nat)
     if searchNext offs bw last = offs.length - 1 then [(last, searchNext offs bw last)]
     else (last, searchNext offs bw last) :: binCuts offs bw fuel (searchNext offs bw last)
 
-/-- chunk_offsets: the bytes of one chunk — rewritten offsets, the values' bytes, padding with 72 to the alignment -/
-def binChunkBytes (offs data : List Nat) (bw : Nat) (cut : Nat × Nat) : List Nat :=
-  encodeWords bw (((offs.drop cut.1).take (cut.2 - cut.1 + 1)).map
-      (fun o => o - offs.getD cut.1 0 + (cut.2 - cut.1 + 1) * bw))
-    ++ (data.drop (offs.getD cut.1 0)).take (offs.getD cut.2 0 - offs.getD cut.1 0)
-    ++ List.replicate
-        (nextMultiple ((cut.2 - cut.1 + 1) * bw + (offs.getD cut.2 0 - offs.getD cut.1 0)) bw
-          - ((cut.2 - cut.1 + 1) * bw + (offs.getD cut.2 0 - offs.getD cut.1 0))) 72
+/-- chunk_offsets: the bytes of one chunk holding the values `cv` — the offsets rebased to the chunk's
+    `bytes_start_offset` = (n + 1) * bw, the values' bytes, padding with 72 to the alignment (= bw) -/
+def binChunkBytes (bw : Nat) (cv : List (List Nat)) : List Nat :=
+  encodeWords bw (offsetsFrom ((cv.length + 1) * bw) cv) ++ cv.flatten ++
+    List.replicate (nextMultiple ((cv.length + 1) * bw + cv.flatten.length) bw
+        - ((cv.length + 1) * bw + cv.flatten.length)) 72
 
-/-- chunk_offsets: the chunk table entry; the size is stored `as u16` -/
+/-- chunk_offsets: the chunk table entry of the chunk from offset index `cut.1` to `cut.2`; the padded size
+    `(n + 1) * bw + (offsets[cut.2] - offsets[cut.1])` is stored `as u16` -/
 def binChunkOf (offs : List Nat) (bw : Nat) (cut : Nat × Nat) : Chunk :=
   ⟨[nextMultiple ((cut.2 - cut.1 + 1) * bw + (offs.getD cut.2 0 - offs.getD cut.1 0)) bw % 65536],
    if cut.2 = offs.length - 1 then 0 else trailingZeros (cut.2 - cut.1) (cut.2 - cut.1)⟩
 
-/-- BinaryMiniBlockEncoder::compress on (offsets, data) with `bw`-byte offsets (alignment = bw) -/
-def binEncode (bw : Nat) (offs data : List Nat) : List (List Nat) × List Chunk :=
-  ([((binCuts offs bw offs.length 0).map (binChunkBytes offs data bw)).flatten],
-   (binCuts offs bw offs.length 0).map (binChunkOf offs bw))
+/-- BinaryMiniBlockEncoder::compress on the byte strings `vals` with `bw`-byte offsets (alignment = bw) -/
+def binEncode (bw : Nat) (vals : List (List Nat)) : List (List Nat) × List Chunk :=
+  (joinBufs 1 ((binCuts (offsetsFrom 0 vals) bw (vals.length + 1) 0).map
+      (fun c => [binChunkBytes bw ((vals.drop c.1).take (c.2 - c.1))])),
+   (binCuts (offsetsFrom 0 vals) bw (vals.length + 1) 0).map (binChunkOf (offsetsFrom 0 vals) bw))
 
 /-- BinaryMiniBlockDecompressor::decompress on one chunk: (offsets rebased to 0, the values' bytes) as values -/
 def binDecodeChunk (bw : Nat) (bufs : List (List Nat)) (n : Nat) : Res (List (List Nat)) :=
@@ -429,8 +433,12 @@ def dictEncodeLoop {α : Type} [DecidableEq α] : List α → List α → List N
 def dictEncode {α : Type} [DecidableEq α] (xs : List α) : List Nat × List α := dictEncodeLoop [] xs
 
 /-- DictionaryDataBlock::decode / take: look every index up -/
-def dictDecode {α : Type} (indices : List Nat) (dict : List α) : Option (List α) :=
-  indices.mapM (fun i => dict[i]?)
+def dictDecode {α : Type} (dict : List α) : List Nat → Option (List α)
+  | [] => some []
+  | i :: is =>
+    match dict[i]?, dictDecode dict is with
+    | some a, some r => some (a :: r)
+    | _, _ => none
 
 /-! ## bit-packing framing (bitpacking.rs) around the FastLanes kernel -/
 
@@ -461,6 +469,9 @@ def ibpPieces (k : Kernel) : Nat → List Nat → List (List Nat × Nat × Nat)
 
 /-- InlineBitpacking::compress (num_values > 0) as words; chunk sizes in bytes -/
 def ibpEncode (k : Kernel) (xs : List Nat) : List (List Nat × Nat × Nat) := ibpPieces k xs.length xs
+
+/-- bitpack_chunked: `buffer_sizes = (1 + 1024 * bit_width / bits_per_value) * size_of::<T>()` -/
+def ibpChunkBytes (bits w : Nat) : Nat := (1 + 1024 * w / bits) * (bits / 8)
 
 def ibpChunkOf (k : Kernel) (p : List Nat × Nat × Nat) : Chunk := ⟨[p.1.length * (k.bits / 8)], p.2.2⟩
 
